@@ -268,6 +268,15 @@ def c16(g, tier):
         yield build_session(f"C16/big/app/{nbytes}", "app", [{"c": "new", "ssrc": [0, 1], "name": [65]}, {"c": "data", "v": [], "big": {"rep": 7, "n": nbytes}}], rt=False)
     for nbytes in (262140 - 4, 262144 - 4, 262148 - 4):
         yield build_session(f"C16/big/unk/{nbytes}", "unk", [{"c": "new", "type": 77, "data": [], "big": {"rep": 7, "n": nbytes}}], rt=False)
+    for n_ in (262128, 262132):      # 12 + pad4(2 + n) = 262144 / 262148
+        fci = {"f": "rpsi", "calls": [{"c": "data", "v": [5] * n_, "bits": 0, "mode": "borrowed"}]}
+        yield build_session(f"C16/big/rpsi/{n_}", "pfb", [{"c": "new", "fci": fci, "owned": False}], rt=False)
+    for e in (65533, 65534):         # 12 + 4 e = 262144 / 262148
+        fci = {"f": "sli", "adds": [[i % 8192, 1, i % 64] for i in range(e)]}
+        yield build_session(f"C16/big/sli/{e}", "pfb", [{"c": "new", "fci": fci, "owned": True}], rt=False)
+    for k in (1019, 1020):           # 4 + pad4(4 + 257 k + 1) = 261892 / 262152
+        ch = {"ssrc": [1, 2], "adds": [{"owned": False, "item": [{"c": "new", "type": 1 + i % 7, "value": [0x41 + i % 26] * 255}]} for i in range(k)]}
+        yield build_session(f"C16/big/sdes/{k}", "sdes", [{"c": "new"}, {"c": "add_chunk", "v": ch}], rt=False)
 
 
 def c20(g, tier):
@@ -367,6 +376,20 @@ def tiles_of(b):
         out.append([off, n])
         off += n
     return out
+
+
+def tiles_of_partial(b):
+    """the chain as far as it goes, and whether it ends exactly at the end (a hint validated by the spec)"""
+    out, off = [], 0
+    while off < len(b):
+        if len(b) < off + 4:
+            return out, False
+        n = 4 * (((b[off + 2] << 8) | b[off + 3]) + 1)
+        if off + n > len(b):
+            return out, False
+        out.append([off, n])
+        off += n
+    return out, True
 
 
 def compound_bytes_sessions(g, n, sidp):
@@ -492,11 +515,22 @@ def big_inputs(g, sidp, count):
     """inputs above 64 KiB: thousands of tiles, and single packets with the maximal length field"""
     r = g.r
     for i in range(count):
-        tiles = []
-        nt = r.choice([3000, 16500])
+        nt = [16500, 3000, 20000][i % 3]
+        T = [[0x80, 203, 0, 0], [0x81, 203, 0, 1, 1, 2, 3, 4], [0x80, 77, 0, 0]]
+        b = []
         for _ in range(nt):
-            tiles += [0x80, 203, 0, 0]
-        yield [reset(f"{sidp}/tiles/{i}"), {"op": "cparse", "b": tiles}] + [{"op": "cnext"}] * 5
+            b += r.choice(T)
+        k = r.random()
+        if i % 2 == 1:
+            b += [[0x80, 203, 0, 9], [1, 2], [0x80, 203, 0, 0, 0]][i // 2 % 3]     # the chain breaks at the very end
+        tl = tiles_of_partial(b)
+        yield [reset(f"{sidp}/tiles/{i}"), {"op": "cparse", "b": b, "hint": {"ok": tl[1], "tiles": tl[0]}}] + [{"op": "cnext"}] * 5
+    # few large tiles adding up to more than 64 KiB (no hint needed)
+    b = []
+    for j in range(5):
+        n = 16384
+        b += hdr(2, False, j, 204, n // 4 - 1) + [j] * (n - 4)
+    yield [reset(f"{sidp}/largetiles"), {"op": "cparse", "b": b}] + [{"op": "cnext"}] * 7
     b = hdr(2, False, 0, 204, 0xffff) + [0] * (262144 - 4)
     yield [reset(f"{sidp}/maxlen"), {"op": "parse", "kind": "app", "b": b}, {"op": "parse", "kind": "packet", "b": b[:70000]}]
 
